@@ -32,6 +32,7 @@ extern void __asan_set_error_report_callback(void (*cb)(const char *));
 extern size_t __sanitizer_get_current_allocated_bytes(void);
 extern size_t __sanitizer_get_allocated_size(const volatile void *p);
 extern int __sanitizer_get_ownership(const volatile void *p);
+extern void __sanitizer_set_report_fd(void *fd);
 const char *__asan_default_options(void)
 {
     return "halt_on_error=0:detect_leaks=0:handle_segv=0:handle_abort=0:handle_sigfpe=0:handle_sigbus=0:"
@@ -66,6 +67,8 @@ static int g_nxargs;
 static int g_allow_exit;
 static int g_is_worker;
 static int g_errfd = 2;             /* original stderr */
+static int g_sanfd = 2;             /* where the sanitizers report (fd 2 unless the library's own stderr chatter is muted) */
+static int g_mute;
 static off_t g_err_off;
 static volatile uint64_t g_case_serial;
 static uint64_t g_viol_serial;
@@ -359,12 +362,12 @@ void mc_poll_sanitizers(void)
 {
 #ifdef MC_ASAN
     if (g_replay) return;
-    off_t end = lseek(2, 0, SEEK_END);
+    off_t end = lseek(g_sanfd, 0, SEEK_END);
     if (end <= g_err_off) { if (end < g_err_off) g_err_off = end; return; }
     char buf[16384];
     off_t from = g_err_off;
     while (from < end) {
-        ssize_t n = pread(2, buf, sizeof buf - 1, from);
+        ssize_t n = pread(g_sanfd, buf, sizeof buf - 1, from);
         if (n <= 0) break;
         buf[n] = 0;
         char *p = buf;
@@ -516,6 +519,22 @@ static void redirect_stderr(void)
     fflush(stderr);
     dup2(fd, 2); close(fd);
     g_err_off = 0;
+#ifdef MC_ASAN
+    if (g_mute) {       /* runs at a runtime debug level > 0: the library's trace output goes to /dev/null, sanitizer reports stay in the scanned file */
+        g_sanfd = dup(2);
+        __sanitizer_set_report_fd((void *) (intptr_t) g_sanfd);
+        int nul = open("/dev/null", O_WRONLY);
+        if (nul >= 0) { dup2(nul, 2); close(nul); }
+    }
+#else
+    if (g_mute) { int nul = open("/dev/null", O_WRONLY); if (nul >= 0) { dup2(nul, 2); close(nul); } }
+#endif
+}
+long mc_dlevel(void)
+{
+    long n = mc_arg_int("dlevel", 0);
+    if (n > 0) g_mute = 1;
+    return n;
 }
 
 /* ------------------------------------------------------------------ init / finish */
